@@ -102,24 +102,15 @@ def check(ctx, src):
 
     # --- freshness ------------------------------------------------------------------------------
     # guards on the path to the shift
-    guards = []
-    n = shift
-    while n is not rs:
-        p = n._parent
-        if isinstance(p, ast.If) and n in p.body:
-            guards.append(p.test)
-        n = p
     flag = None
-    for g in guards:
-        for x in ast.walk(g):
-            if _is_self_attr(x) and x.attr not in ("last_value", "print_last_value", "locals"):
-                # candidate flag: positively required
-                if _positive(g, x):
-                    flag = x.attr
+    for a in pyq.atoms(shift, rs):
+        x = a.node
+        if _is_self_attr(x) and x.attr not in ("last_value", "print_last_value", "locals"):
+            flag = x.attr  # a conjunct of the path condition that is a plain `self.<flag>` (positively required)
     lv_assign = [a for a in pyq.walk_no_nested(rc) if isinstance(a, ast.Assign) and any(_is_self_attr(t, "last_value") for t in a.targets)]
     ctx.need(len(lv_assign) == 1, "REPL.runcode no longer assigns self.last_value exactly once")
     lva = lv_assign[0]
-    in_try = [t for t, part in pyq.enclosing_try_parts(lva) if part == "body"]
+    in_try = [t for t, part in pyq.enclosing_try_parts(lva) if part in ("body", "orelse")]  # else-clause: runs only on success, like the end of the body
     if flag is None:
         ctx.bad("REPL-FRESH", key + "|guard", "the shift is reached whenever the base runsource returns False, which (stdlib, parsed) also happens after a "
                 "syntax error and after runcode caught an exception; self.last_value is then the previous input's value", REL, shift.lineno,
@@ -148,7 +139,7 @@ def check(ctx, src):
         for q, a in sets:
             if q != "REPL.runcode":
                 continue
-            same_try = [t for t, part in pyq.enclosing_try_parts(a) if part == "body"]
+            same_try = [t for t, part in pyq.enclosing_try_parts(a) if part in ("body", "orelse")]
             after = a.lineno > lva.lineno and same_try and in_try and same_try[0] is in_try[0] and a._parent is lva._parent
             ctx.check(after, "REPL-FRESH", key + "|flag-after-value",
                       f"self.{flag} is set at line {a.lineno}, not after `self.last_value = ...` in the same try body", REL, a.lineno,
@@ -157,7 +148,9 @@ def check(ctx, src):
     ctx.check(bool(in_try), "REPL-ERR", f"{REL}|REPL.runcode|try", "self.last_value is not assigned inside runcode's try", REL, lva.lineno, detail="inside try body")
     # statements are evaluated before the expression
     evs = [c for c in pyq.calls(rc) if dotted(c.func) == "eval"]
-    ok_order = len(evs) == 2 and norm(evs[0].args[0]) == "code[0]" and norm(evs[1].args[0]) == "code[1]" and evs[1]._parent is lva
+    feeds = len(evs) == 2 and (evs[1]._parent is lva or (isinstance(evs[1]._parent, ast.Assign) and isinstance(evs[1]._parent.targets[0], ast.Name)
+                                                       and isinstance(lva.value, ast.Name) and lva.value.id == evs[1]._parent.targets[0].id))
+    ok_order = len(evs) == 2 and str(norm(evs[0].args[0])) != str(norm(evs[1].args[0])) and feeds and evs[0].lineno < evs[1].lineno
     ctx.check(ok_order, "REPL-ERR", f"{REL}|REPL.runcode|order", "runcode must eval code[0] (statements) and then assign eval(code[1]) to last_value", REL, rc.lineno,
               detail="eval(code[0]); last_value = eval(code[1])")
 
